@@ -20,6 +20,7 @@ Model driver for C03. Line protocol (single spaces between fields; see harness/p
      A<b>                       kc.Ask
      R<b>:<off>:<len>           kc.ReadAt (shared BlockCache{MaxBlocks}), then a synchronous Sweep
      r<len> | k<off>            File.Read / File.Seek(off, SeekStart), Sweep after each Read
+  every op result of a session is followed by '@' and the number of HTTP requests made so far
   schedule  := ('s'<b> | 'f'<b>) (',' …)*   start a reader of block b (ReadAt whole block) /
                release the blocked request of the fetch of block b; afterwards everything is released
 -/
@@ -259,7 +260,7 @@ def runOps (st : Sess) : List String → List String → Option (List String × 
   | [], acc => some (acc.reverse, st)
   | op :: rest, acc =>
     match runOp st op with
-    | some (r, st') => runOps st' rest (r :: acc)
+    | some (r, st') => runOps st' rest (s!"{r}@{st'.log.length}" :: acc)
     | none => none
 
 /-- loadManifest for the stream ". <locators> <tokens for f>": needs a 32-bit size hint on every
